@@ -32,6 +32,10 @@
 #include <vector>
 #include <cstdint>
 #include <memory>
+#ifdef DWGREP_VERIF
+# include <map>
+# include <typeinfo>
+#endif
 
 #include "layout.hh"
 
@@ -45,6 +49,19 @@ class scon
     return m_buf.data () + loc.m_loc;
   }
 
+#ifdef DWGREP_VERIF
+  // Verification hook: a shadow map of the states that are currently
+  // constructed in the buffer.  Any breach of the construct-once /
+  // use-while-live / destroy-once / no-overlap discipline aborts.
+  struct verif_slot { size_t size; char const *type; };
+  std::map <size_t, verif_slot> m_verif_live;
+  void verif_con (size_t loc, size_t size, char const *type);
+  void verif_des (size_t loc, size_t size, char const *type);
+  void verif_get (size_t loc, size_t size, char const *type);
+public:
+  ~scon ();
+#endif
+
 public:
   scon (layout const &l);
 
@@ -52,6 +69,9 @@ public:
   State &
   get (layout::loc loc)
   {
+#ifdef DWGREP_VERIF
+    verif_get (loc.m_loc, sizeof (State), typeid (State).name ());
+#endif
     return *reinterpret_cast <State *> (this->mem (loc));
   }
 
@@ -59,6 +79,9 @@ public:
   void
   con (layout::loc loc, Args const&... args)
   {
+#ifdef DWGREP_VERIF
+    verif_con (loc.m_loc, sizeof (State), typeid (State).name ());
+#endif
     new (this->mem (loc)) State {args...};
   }
 
@@ -67,6 +90,9 @@ public:
   des (layout::loc loc)
   {
     this->get <State> (loc).~State ();
+#ifdef DWGREP_VERIF
+    verif_des (loc.m_loc, sizeof (State), typeid (State).name ());
+#endif
   }
 
   template <class State, class... Args>
